@@ -40,6 +40,9 @@ func (c *specCtx) declaredSomewhere(msg string) bool {
 		return false
 	}
 	name := msg[i+1 : j]
+	if nn, ok := c.fr.top.fn.renames[name]; ok {
+		name = nn // the local was renamed since the baseline: look for it under its current name
+	}
 	d := c.fr.top.fn.Decl
 	for id, obj := range c.fr.top.fn.Pkg.TypesInfo.Defs {
 		if id.Name == name && obj != nil && d.Pos() <= id.Pos() && id.Pos() < d.End() {
